@@ -165,16 +165,21 @@ pub enum HunkHeaderIncludeCodeFragment {
 
 impl Config {
     pub fn get_style(&self, state: &State) -> &Style {
+        self.get_style_if_any(state)
+            .unwrap_or_else(|| delta_unreachable("Unreachable code reached in get_style."))
+    }
+
+    pub fn get_style_if_any(&self, state: &State) -> Option<&Style> {
         match state {
-            State::HunkMinus(_, _) => &self.minus_style,
-            State::HunkZero(_, _) => &self.zero_style,
-            State::HunkPlus(_, _) => &self.plus_style,
-            State::CommitMeta => &self.commit_style,
-            State::DiffHeader(_) => &self.file_style,
-            State::Grep(GrepType::Ripgrep, _, _, _) => &self.classic_grep_header_style,
-            State::HunkHeader(_, _, _, _) => &self.hunk_header_style,
-            State::SubmoduleLog => &self.file_style,
-            _ => delta_unreachable("Unreachable code reached in get_style."),
+            State::HunkMinus(_, _) => Some(&self.minus_style),
+            State::HunkZero(_, _) => Some(&self.zero_style),
+            State::HunkPlus(_, _) => Some(&self.plus_style),
+            State::CommitMeta => Some(&self.commit_style),
+            State::DiffHeader(_) => Some(&self.file_style),
+            State::Grep(GrepType::Ripgrep, _, _, _) => Some(&self.classic_grep_header_style),
+            State::HunkHeader(_, _, _, _) => Some(&self.hunk_header_style),
+            State::SubmoduleLog => Some(&self.file_style),
+            _ => None,
         }
     }
 
